@@ -590,7 +590,9 @@ output(std::ostream &out, int indent_level, CPPScope *scope, bool complete,
     // In this case, the whole thing is really an expression, and not an
     // instance at all.  This can only happen if we parsed an instance
     // declaration while we thought we were parsing a function prototype.
-    out << *_initializer;
+    if (_initializer != nullptr) {
+      out << *_initializer;
+    }
     return;
   }
 
